@@ -341,10 +341,13 @@ func (i *Info) ChannelCounts() map[string]uint64 {
 // CanReadMessagesUsingIndex returns true if messages can be read from this file efficiently using
 // the index.
 func (i *Info) CanReadMessagesUsingIndex() bool {
-	// If there are chunk indexes, we can read messages using the index.
-	// if there are none, but the statistics indicate that there are messages, then we know
+	// If there are chunk indexes and the summary repeats the channel records, we can read messages
+	// using the index. Without channel records the indexed iterator cannot attribute any message to
+	// a channel and would silently yield nothing, so such files must be scanned instead.
+	// if there are no chunk indexes, but the statistics indicate that there are no messages, then we know
 	// that a read using the indexed message iterator will still yield the correct set of messages.
-	return len(i.ChunkIndexes) > 0 || (i.Statistics != nil && i.Statistics.MessageCount == 0)
+	return (len(i.ChunkIndexes) > 0 && len(i.Channels) > 0) ||
+		(i.Statistics != nil && i.Statistics.MessageCount == 0)
 }
 
 type MessageIndexEntry struct {
